@@ -140,7 +140,44 @@ func walFacts() {
 	add("walLastOffsetIsSynced", "Bool", boolLean(synced), "server/wal/wal_impl.go: (*wal).LastOffset", src(lo))
 }
 
+// codecFacts classifies the bound checks of ReadHeaderWithValidation in both codecs.
+func codecFacts() {
+	safe, guarded := true, true
+	seen := ""
+	for _, v := range []struct{ file, recv string }{{"server/wal/codec/v2.go", "V2"}, {"server/wal/codec/v1.go", "V1"}} {
+		f := parse(v.file)
+		fn := funcDecl(f, v.recv, "ReadHeaderWithValidation")
+		if fn == nil {
+			safe, guarded = false, false
+			continue
+		}
+		body := squash(src(fn.Body))
+		// overflow-safe: the size check has the shape `actualBufSize < H || payloadSize > actualBufSize-H`
+		// and no `payloadSize + ...HeaderSize` sum is compared with the buffer size
+		okShape := strings.Contains(body, "actualBufSize < v.HeaderSize || payloadSize > actualBufSize-v.HeaderSize")
+		badSum := strings.Contains(body, "payloadSize + v.HeaderSize") || strings.Contains(body, "v.HeaderSize + payloadSize")
+		if !okShape || badSum {
+			safe = false
+		}
+		// guarded: a check `actualBufSize < v?PayloadSizeLen` (or HeaderSize) precedes the first ReadInt
+		ri := strings.Index(body, "ReadInt(")
+		g1 := strings.Index(body, "if actualBufSize < v"+strings.ToLower(v.recv[1:])+"PayloadSizeLen")
+		g2 := strings.Index(body, "if actualBufSize < v.HeaderSize {")
+		if !(ri >= 0 && ((g1 >= 0 && g1 < ri) || (g2 >= 0 && g2 < ri))) {
+			guarded = false
+		}
+		seen += fmt.Sprintf("%s: okShape=%v sum=%v; ", v.recv, okShape, badSum)
+	}
+	add("codecSizeCheckOverflowSafe", "Bool", boolLean(safe), "server/wal/codec/v1.go,v2.go: ReadHeaderWithValidation", seen)
+	add("codecReadIntGuarded", "Bool", boolLean(guarded), "server/wal/codec/v1.go,v2.go: ReadHeaderWithValidation", seen)
+	// v1 header size
+	f1 := parse("server/wal/codec/v1.go")
+	v, ok := constEval(f1, topVarValue(f1, "v1PayloadSizeLen"), 0)
+	natFact("codecV1HeaderSize", v, ok, "server/wal/codec/v1.go: v1PayloadSizeLen", "")
+}
+
 // moreFacts collects the facts of the other properties (added per property).
 func moreFacts() {
 	walFacts()
+	codecFacts()
 }
